@@ -18,5 +18,22 @@ theorem fact_result_Failed : F1.Generated.skel_result_Failed = F1.Expected.skel_
 theorem fact_result_Error : F1.Generated.skel_result_Error = F1.Expected.skel_result_Error := by rfl
 theorem fact_cpool_Start : F1.Generated.skel_cpool_Start = F1.Expected.skel_cpool_Start := by rfl
 theorem fact_pool_stop : F1.Generated.skel_pool_stop = F1.Expected.skel_pool_stop := by rfl
+theorem fact_result_Progress : F1.Generated.skel_result_Progress = F1.Expected.skel_result_Progress := by rfl
+theorem fact_result_HasDropped : F1.Generated.skel_result_HasDropped = F1.Expected.skel_result_HasDropped := by rfl
+theorem fact_result_Setup : F1.Generated.skel_result_Setup = F1.Expected.skel_result_Setup := by rfl
+theorem fact_result_MaxDurationElapsed : F1.Generated.skel_result_MaxDurationElapsed = F1.Expected.skel_result_MaxDurationElapsed := by rfl
+theorem fact_result_Interrupted : F1.Generated.skel_result_Interrupted = F1.Expected.skel_result_Interrupted := by rfl
+theorem fact_result_RecordStarted : F1.Generated.skel_result_RecordStarted = F1.Expected.skel_result_RecordStarted := by rfl
+theorem fact_result_RecordTestFinished : F1.Generated.skel_result_RecordTestFinished = F1.Expected.skel_result_RecordTestFinished := by rfl
+theorem fact_result_MaxIterationsReached : F1.Generated.skel_result_MaxIterationsReached = F1.Expected.skel_result_MaxIterationsReached := by rfl
+theorem fact_result_duration : F1.Generated.skel_result_duration = F1.Expected.skel_result_duration := by rfl
+theorem fact_result_AddError : F1.Generated.skel_result_AddError = F1.Expected.skel_result_AddError := by rfl
+theorem fact_result_SnapshotProgress : F1.Generated.skel_result_SnapshotProgress = F1.Expected.skel_result_SnapshotProgress := by rfl
+theorem fact_result_GetTotals : F1.Generated.skel_result_GetTotals = F1.Expected.skel_result_GetTotals := by rfl
+theorem fact_run_newProgressRunner : F1.Generated.skel_run_newProgressRunner = F1.Expected.skel_run_newProgressRunner := by rfl
+theorem fact_run_teardown : F1.Generated.skel_run_teardown = F1.Expected.skel_run_teardown := by rfl
+theorem fact_run_printSummary : F1.Generated.skel_run_printSummary = F1.Expected.skel_run_printSummary := by rfl
+theorem fact_users_NewWorker : F1.Generated.skel_users_NewWorker = F1.Expected.skel_users_NewWorker := by rfl
+theorem fact_api_NewIterationWorker : F1.Generated.skel_api_NewIterationWorker = F1.Expected.skel_api_NewIterationWorker := by rfl
 
 end F1.Props.FactsC05
